@@ -108,6 +108,13 @@ func TestWriteReplays(t *testing.T) {
 	write("08-near-deadline.json", "retry-policy", Script{Signal: sig.Logs, Payload: full, DeadlineMS: 25,
 		Backoff:  Backoff{Enabled: true, InitialUS: 4000, MultX100: 200, RandX100: 0, MaxIntUS: 16000},
 		Outcomes: []Outcome{{}, {}, {}, {}, {}, {}}})
+	// 9. persistent queue + batcher max_size 2: part {1,2} fails permanently, part {3,4} is parked when Shutdown arrives
+	write("09-split-permanent-then-parked.json", "shutdown-persist-split", SScript{Signal: sig.Logs, Payload: full, Backoff: bo, MaxSize: 2,
+		Fates: []Fate{{Kind: "perm", Wrap: 1}, {Kind: "ok"}, {Kind: "park", ThrottleUS: 10_000_000}, {Kind: "ok"}}, DelayUS: 300})
+	// 10. same, the earlier part exhausts max_elapsed_time instead; a third part is tried once while draining
+	write("10-split-exhausted-then-parked.json", "shutdown-persist-split", SScript{Signal: sig.Logs, Payload: logsPayload(6), MaxSize: 2,
+		Backoff: Backoff{Enabled: true, InitialUS: 2000, MultX100: 200, RandX100: 0, MaxIntUS: 16000, MaxElapsedMS: 60000},
+		Fates:   []Fate{{Kind: "ok"}, {Kind: "exhaust"}, {Kind: "park", ThrottleUS: 10_000_000}, {Kind: "ok"}, {Kind: "flaky", K: 1}, {Kind: "ok"}}, LingerUS: 500})
 	// 6. persistent queue control: permanent error, clean shutdown, nothing may come back
 	write("06-persist-permanent-control.json", "shutdown-persist", PScript{Script: Script{Signal: sig.Logs, Payload: full, Backoff: bo,
 		Outcomes: []Outcome{{}, {Perm: true, Wrap: 1}}}})
